@@ -174,13 +174,18 @@ func (in *Interp) installStubs5() {
 			in.store(dst, Str{S: s})
 			return Iface{}
 		}
-		var w any
-		dec := json.NewDecoder(strings.NewReader(string(b)))
-		dec.UseNumber()
-		if err := dec.Decode(&w); err != nil {
-			return in.goError(err.Error())
+		// destination *any: the real Unmarshal (numbers become float64), run natively
+		if pt, ok := a[1].(Iface).T.(*types.Pointer); ok {
+			if it, isIface := pt.Elem().Underlying().(*types.Interface); isIface && it.Empty() {
+				var w any
+				if err := json.Unmarshal(b, &w); err != nil {
+					return in.nativeErr(err)
+				}
+				in.store(dst, in.fromNative(w))
+				return Iface{}
+			}
 		}
-		abortf("unsupported: json.Unmarshal into a non-string destination")
+		abortf("unsupported: json.Unmarshal into %v", a[1].(Iface).T)
 		return nil
 	}
 }
